@@ -10,6 +10,33 @@ sys.path.insert(0, os.path.dirname(os.path.dirname(os.path.abspath(__file__))))
 from harness import common  # noqa: E402
 
 
+class _WallClockExceeded(BaseException):
+    pass
+
+
+def _limit_resources(tier):
+    """Bound what one check may consume while it drives the implementation: a changed implementation can loop for ever
+    or accumulate without bound (seed C20-9 did: 20 GB in 12 minutes).  Address space: VERIF_MEM_LIMIT_GB (default 12;
+    applies to this process and the model driver, set after the Lean build, whose processes map far more).  Wall clock:
+    VERIF_WALL_LIMIT_S (default 1800 quick / 5400 thorough).  Exceeding the memory limit surfaces as MemoryError inside
+    the property module (recorded as a broken correspondence, the verdict logic still runs); exceeding the wall clock is
+    exit 2 (a timeout is never a VIOLATION)."""
+    import resource
+    import signal
+    gb = float(os.environ.get('VERIF_MEM_LIMIT_GB', '12') or 0)
+    if gb > 0:
+        lim = int(gb * (1 << 30))
+        soft, hard = resource.getrlimit(resource.RLIMIT_AS)
+        if hard == resource.RLIM_INFINITY or lim <= hard:
+            resource.setrlimit(resource.RLIMIT_AS, (lim, hard))
+    secs = int(os.environ.get('VERIF_WALL_LIMIT_S', '1800' if tier == 'quick' else '5400') or 0)
+    if secs > 0:
+        def on_alarm(signum, frame):
+            raise _WallClockExceeded()
+        signal.signal(signal.SIGALRM, on_alarm)
+        signal.alarm(secs)
+
+
 def main():
     ap = argparse.ArgumentParser()
     ap.add_argument('prop')
@@ -42,11 +69,20 @@ def main():
             if hasattr(mod, 'regenerate'):
                 mod.regenerate(ctx)      # tie T2/T3: rewrite lean/HcipyVerif/Gen/*.lean from the running code
             ctx.build_and_audit()
+        _limit_resources(args.tier)
         try:
             mod.run(ctx)
         except common.MachineryError:
             raise
-        except Exception:
+        except Exception as exc:
+            if isinstance(exc, MemoryError):
+                # give the verdict logic room to run: lift the limit that was hit, drop what the property module held
+                import gc
+                import resource
+                resource.setrlimit(resource.RLIMIT_AS, (resource.getrlimit(resource.RLIMIT_AS)[1],) * 2)
+                del exc
+                gc.collect()
+                ctx.disagree('resource-limit', {'what': 'driving the implementation exceeded VERIF_MEM_LIMIT_GB'})
             # The harness could not interpret what the implementation did (it raised while driving or observing
             # the real code).  On the unchanged tree this never happens; on a changed tree it means the
             # correspondence between model and code no longer checks.  It is reported as such - with whatever
@@ -57,6 +93,9 @@ def main():
         return ctx.finish()
     except common.MachineryError as e:
         print('MACHINERY-ERROR %s: %s' % (prop, e))
+        return 2
+    except _WallClockExceeded:
+        print('MACHINERY-ERROR %s: wall-clock limit exceeded (VERIF_WALL_LIMIT_S)' % prop)
         return 2
     except Exception:
         traceback.print_exc()
